@@ -1,5 +1,5 @@
 PROP = {
-        "modules": ["Discv5Model.Props.C17"],
+        "modules": ["Discv5Model.Props.C17", "Discv5Model.Props.C17Service"],
         "lemma_modules": ["Discv5Model.Proofs.IpVoteLemmas"],
         "engines": [{"name": "ipvote", "quick": 1000, "thorough": 30000}, {"name": "service", "quick": 80, "thorough": 1500}],
         "rule": "ipvote engine: each case = one IpVote (minimum 2..6) driven by a vote sequence (voter, address) with "
